@@ -269,8 +269,8 @@ class MultiIndexCoerceDtype(Contract):
             cur().ghost["built"] = (list(arrays), names)
             return SAny(name="coerced_multiindex")
 
-        I.models[id(pd.MultiIndex.from_arrays.__func__)] = from_arrays
-        I.models[id(pd.MultiIndex.from_arrays)] = from_arrays
+        # (keyed by the underlying function: a bound-method object is a temporary whose id may be re-used by any other object)
+        I.models[id(pd.MultiIndex.__dict__["from_arrays"].__func__)] = from_arrays
 
     def make_args(self):
         from pandera.backends.pandas.components import MultiIndexBackend as B
